@@ -381,17 +381,24 @@ def run(out, drv, info):
         out.disagreement(f'micro ties could not be driven: {type(e).__name__}: {e}', {'kind': 'micro-crash', 'trace': traceback.format_exc()[-1200:]})
 
 
+def _in_child(fn, arg):
+    """run a worker in a forked child: an aborted restore leaves replicat's loader threads blocked for ever, which would hang the
+    interpreter of the calling process at exit"""
+    with mp.get_context('fork').Pool(1) as pool:
+        return pool.apply(fn, (arg,))
+
+
 def replay(path, drv):
     d = json.load(open(path))
     rp = d.get('replay', d)
     kind = rp.get('kind')
     if kind == 'sym':
-        obs = w_symbolic((rp['seed'], rp['idx'], rp.get('tier', 'quick')))
+        obs = _in_child(w_symbolic, (rp['seed'], rp['idx'], rp.get('tier', 'quick')))
         bad, verdict = H.judge(obs, drv) if drv is not None else ([], {})
         print('stats', obs['stats'], 'problems', obs['problems'][:3], 'disagreements', bad[:5])
         return 1 if (bad or obs['problems']) else 0
     if kind in ('read', 'write'):
-        res = (w_ref_reads if kind == 'read' else w_ref_writes)((rp['seed'], rp['idx'], rp.get('tier', 'quick')))
+        res = _in_child(w_ref_reads if kind == 'read' else w_ref_writes, (rp['seed'], rp['idx'], rp.get('tier', 'quick')))
         print('summary', res['summary'])
         for v in res['violations']:
             print('violation', v[0], v[1])
